@@ -143,3 +143,25 @@ Theorem C09_print_parse_round_trip : forall intern unintern D l T, rt_ok intern 
   literal_parse_tokens intern D T (lit_tokens unintern l) = COk l.
 Proof. exact roundtrip. Qed.
 Print Assumptions C09_print_parse_round_trip.
+
+(* ... stated for VALUES OF THE TYPE, and through the TEXT (Check/LitRoundTripText.v): a literal that
+   the type test accepts at the resolved parameter type, in a printable form ([printable_value]: no
+   empty array; arrays of aggregates do not mix signs at one position; ranges non-empty and at most
+   2^32 - 1 long), with the names of the definitions surviving interning ([D_names_ok]), is printed
+   and parsed back to itself - over tokens, and through the scanner for the printed text. *)
+From GV Require Import Front.ScanPrint Check.LitRoundTripText.
+
+Theorem C09_value_print_parse_round_trip : forall intern unintern D, D_names_ok intern unintern D ->
+  forall l T r fuel,
+  Literal.is_of_type l r = true -> rty_of_cty intern D fuel T = Some r -> printable_value unintern l = true ->
+  literal_parse_tokens intern D T (lit_tokens unintern l) = COk l.
+Proof. exact value_roundtrip. Qed.
+Print Assumptions C09_value_print_parse_round_trip.
+
+Theorem C09_value_print_parse_round_trip_text : forall intern unintern D, D_names_ok intern unintern D ->
+  forall l T r fuel,
+  Literal.is_of_type l r = true -> rty_of_cty intern D fuel T = Some r -> printable_value unintern l = true ->
+  aux_ok unintern false l ->
+  literal_parse intern D T (print_tokens (map kind (lit_tokens unintern l))) = COk l.
+Proof. exact value_roundtrip_text. Qed.
+Print Assumptions C09_value_print_parse_round_trip_text.
